@@ -425,10 +425,69 @@ Definition spec_C08 (st : pstate) : list (string * form) :=
 Definition spec_C08_swept (st : pstate) : list (string * form) :=
   flat_map (fun r => map (fun '(k, f) => (ikey r k, f)) (spec_C08_S st r)) (x_inds (ps_ext st)).
 
+(* ================================================================== *)
+(* C09: buffers.  The reported data of buffer b are the level variables (initial level, one per access)
+   and the change-time variables; an access is an unloading at the start of its task (-q) or a loading at the
+   end of its task (+q). *)
+Definition bkey (b : bufrec) (k : string) : string := ("C09/buf:" ++ show_nat (b_id b) ++ "/" ++ k)%string.
+Record bevent := { ev_task : nat; ev_time : term; ev_delta : Z }.
+Definition buf_events (b : bufrec) : list bevent :=
+  map (fun '(t, q) => {| ev_task := t; ev_time := TV (VStart t); ev_delta := - q |}) (b_unload b)
+  ++ map (fun '(t, q) => {| ev_task := t; ev_time := TV (VEnd t); ev_delta := q |}) (b_load b).
+Fixpoint consecutive {A} (l : list A) : list (A * A) :=
+  match l with x :: ((y :: _) as r) => (x, y) :: consecutive r | _ => [] end.
+(* every access has its own slot (no task accesses the buffer twice) *)
+Definition buf_regular (b : bufrec) : bool :=
+  Nat.eqb (List.length (b_slots b)) (List.length (b_unload b) + List.length (b_load b))
+  && Nat.eqb (List.length (nodup Nat.eq_dec (b_slots b))) (List.length (b_slots b)).
+Definition task_act (st : pstate) (t : nat) : form :=
+  match find_task st t with Some ti => act ti | None => FT end.
+
+Definition spec_C09_P (b : bufrec) : list (string * form) :=
+  let levels := buf_levels b in
+  let changes := buf_changes b in
+  let evs := buf_events b in
+  (match b_init b with Some v => [("initial_level", FEq (TV (VLevel0 (b_id b))) (TC v))] | None => [] end)
+  ++ (match b_final b with Some v => [("final_level", FEq (last_term levels (TV (VLevel0 (b_id b)))) (TC v))] | None => [] end)
+  ++ (match b_lo b with Some v => map (fun l => ("lower_bound", FLe (TC v) l)) levels | None => [] end)
+  ++ (match b_hi b with Some v => map (fun l => ("upper_bound", FLe l (TC v))) levels | None => [] end)
+  ++ (if buf_regular b && negb (b_conc b) then
+        (* non-concurrent buffer: the reported change times are access instants, in strictly ascending order
+           (never two accesses at one instant) *)
+        map (fun c => ("change_is_access", FOr (map (fun ev => FEq c (ev_time ev)) evs))) changes
+        ++ map (fun '(c1, c2) => ("change_times_increasing", FLt c1 c2)) (consecutive changes)
+      else []).
+
+Definition spec_C09_S (st : pstate) (b : bufrec) : list (string * form) :=
+  let levels := buf_levels b in
+  let changes := buf_changes b in
+  let evs := buf_events b in
+  let has_opt := existsb (fun ev => match find_task st (ev_task ev) with Some ti => ti_opt ti | None => false end) evs in
+  let suffix := (if has_opt then "_optional" else "")%string in
+  if buf_regular b then
+    (* level after the k-th reported change = initial level + all quantities of the accesses of acting tasks
+       at instants up to that change time (loads at task completion, unloads at task start) *)
+    map (fun '(l, c) => (("level_after_change" ++ suffix)%string,
+           FEq l (TAdd (TV (VLevel0 (b_id b))
+                        :: map (fun ev => when_t (FAnd [task_act st (ev_task ev); FLe (ev_time ev) c]) (TC (ev_delta ev))) evs))))
+        (combine (tl levels) changes)
+    ++ map (fun ev => ("access_is_change", FImp (task_act st (ev_task ev)) (FOr (map (fun c => FEq c (ev_time ev)) changes)))) evs
+    ++ (if b_conc b then map (fun '(c1, c2) => ("change_times_sorted", FLe c1 c2)) (consecutive changes)
+                         ++ map (fun c => ("change_is_access_concurrent", FOr (map (fun ev => FEq c (ev_time ev)) evs))) changes
+        else map (fun '(e1, e2) => ("accesses_distinct",
+                    FImp (FAnd [task_act st (ev_task e1); task_act st (ev_task e2)]) (FNot (FEq (ev_time e1) (ev_time e2)))))
+                 (pairs_of evs))
+  else [].
+
+Definition spec_C09 (st : pstate) : list (string * form) :=
+  flat_map (fun b => map (fun '(k, f) => (bkey b k, f)) (spec_C09_P b)) (x_bufs (ps_ext st)).
+Definition spec_C09_swept (st : pstate) : list (string * form) :=
+  flat_map (fun b => map (fun '(k, f) => (bkey b k, f)) (spec_C09_S st b)) (x_bufs (ps_ext st)).
+
 Definition spec_all (st : pstate) : list (string * form) :=
   spec_C01 st ++ spec_C02 st ++ spec_C02_capacity st ++ spec_C03 st ++ spec_C03_swept st
   ++ spec_C04 st ++ spec_C04_swept st ++ spec_C06 st ++ spec_C10 st
-  ++ spec_C08 st ++ spec_C08_swept st.
+  ++ spec_C08 st ++ spec_C08_swept st ++ spec_C09 st ++ spec_C09_swept st.
 
 (* ================================================================== *)
 (* C18: which constructor calls are well formed (the rule list of the property text, completed by
